@@ -396,6 +396,9 @@ class Kernel:
         self.mounts_real_path = None
         self.users_list = []
         self.sysinfo = (0, 0, 0, 0, 0, 0, 1)
+        # False: a host where ::1 cannot be bound (net.ipv6.conf.all.disable_ipv6=1,
+        # container loopback without ::1) although the IPv6 socket tables exist
+        self.ipv6_bindable = True
 
     # ---- state manipulation -------------------------------------------
 
@@ -1379,6 +1382,35 @@ def reset_psutil_state(psutil, keep_cpu_last=False):
                     pass
 
 
+class _NoV6SocketModule:
+    """The socket module of a host on which an AF_INET6 socket cannot be bound
+    to ::1."""
+
+    def __init__(self, real):
+        self._real = real
+
+    def __getattr__(self, name):
+        return getattr(self._real, name)
+
+    def socket(self, family=-1, *a, **kw):
+        real = self._real
+        if family == real.AF_INET6:
+            class _S:
+                def __enter__(self_):
+                    return self_
+
+                def __exit__(self_, *exc):
+                    return False
+
+                def bind(self_, addr):
+                    raise oserr(errno.EADDRNOTAVAIL)
+
+                def close(self_):
+                    pass
+            return _S()
+        return real.socket(family, *a, **kw)
+
+
 @contextlib.contextmanager
 def installed(kernel, reset=True, virtual_time=True):
     """Route psutil's OS access to `kernel` for the duration of the block."""
@@ -1399,6 +1431,8 @@ def installed(kernel, reset=True, virtual_time=True):
 
     patch(C, "open", _make_open(kernel), create=True)
     patch(C, "os", simos)
+    if not kernel.ipv6_bindable and hasattr(C, "socket"):
+        patch(C, "socket", _NoV6SocketModule(C.socket))
     patch(L, "os", simos)
     patch(L, "glob", simglob)
     patch(L, "resource", SimResource(kernel))
